@@ -491,6 +491,16 @@ fn validate_nameserver_response(
     }
 }
 
+/// Verification wrapper exposing `validate_nameserver_response`.
+#[cfg(resolved_verif)]
+pub fn verif_validate_nameserver_response(
+    question: &Question,
+    response: &Message,
+    current_match_count: usize,
+) -> Option<NameserverResponse> {
+    validate_nameserver_response(question, response, current_match_count)
+}
+
 /// Given a set of RRs and a domain name we're looking for, follow
 /// `CNAME`s in the response and return the final name (which is the
 /// name that will have the non-`CNAME` records associated with it).
